@@ -24,9 +24,17 @@ VARIABLES l,        \* next line
           ntxs,     \* transitions seen in this block
           hist,     \* ... and what they were (same workload <=> same history)
           ref,      \* answers of the first backend of the case, by query index
+          proc,     \* the PROCESS that has the store open (a block may go through
+                    \* several: EvRestart):
+                    \*   start   records created before it opened the store
+                    \*   opened  records it found in the store
+                    \*   next    NextId at the last scan (at the opening)
+                    \*   gc      its SavedGc counter at the last scan
+                    \*   settled the last scan saw no write / rotation in flight
+                    \*   n       how many processes the block has seen
           viol, drift, stats
 
-tvars == <<l, cid, backend, cfg, open, made, olog, quiet, ntxs, hist, ref, viol, drift, stats>>
+tvars == <<l, cid, backend, cfg, open, made, olog, quiet, ntxs, hist, ref, proc, viol, drift, stats>>
 
 Line == Trace[l]
 
@@ -39,12 +47,16 @@ CfgOf(x) ==
    tracked |-> x.tracked, qtracked |-> x.qtracked, utracked |-> x.utracked]
 
 NoStats == [cases |-> 0, tx |-> 0, rec |-> 0, logs |-> 0, q |-> 0, overlaps |-> 0, imports |-> 0,
-            crashes |-> 0, must |-> 0, mustnot |-> 0, either |-> 0]
+            crashes |-> 0, must |-> 0, mustnot |-> 0, either |-> 0,
+            restarts |-> 0, rotations |-> 0, rotationsReopened |-> 0, grownByRestarts |-> 0]
+
+Proc0 == [start |-> 0, opened |-> 0, next |-> 1, gc |-> 0, settled |-> TRUE, n |-> 1]
 
 TraceInit ==
   /\ l = 1 /\ cid = 0 /\ backend = "" /\ cfg = None /\ open = FALSE
   /\ made = <<>> /\ olog = <<>> /\ quiet = TRUE /\ ntxs = 0 /\ hist = <<>>
   /\ ref = [qs |-> <<>>, b |-> "", hist |-> <<>>]
+  /\ proc = Proc0
   /\ viol = {} /\ drift = {} /\ stats = NoStats
 
 ---------------------------------------------------------------------------
@@ -57,6 +69,7 @@ EvCase ==
      /\ open' = (x.err = "")
      /\ made' = <<>> /\ olog' = <<>> /\ quiet' = TRUE /\ ntxs' = 0 /\ hist' = <<>>
      /\ ref' = IF x.cid = cid THEN ref ELSE [qs |-> <<>>, b |-> x.backend, hist |-> <<>>]
+     /\ proc' = Proc0
      /\ drift' = drift \cup
           (IF x.err # "" THEN {<<l, "case.err">>} ELSE {}) \cup
           (IF x.err = "" /\ ~(SSet(x.utracked) \subseteq SSet(x.tracked))
@@ -77,12 +90,14 @@ EvTx ==
          created == x.nextId - (Len(made) + 1)
          must == MustMatch(cfg, tx)
          mustnot == MustNotMatch(cfg, tx)
-         prev == IF made = <<>> THEN None ELSE made[Len(made)]
+         \* m.lastRec lives in the memory object: the first record of a process
+         \* has no predecessor, also on a re-opened store
+         prev == IF Len(made) = proc.start THEN None ELSE made[Len(made)]
          r == [MkRec(cfg, tx, prev, Len(made) + 1) EXCEPT !.mi = x.mi]
          rr == [id |-> r.id, sum |-> r.sum, tsum |-> r.tsum, dsum |-> r.dsum,
                 tdsum |-> r.tdsum, rdsum |-> r.rdsum, mt |-> r.mt, mtd |-> r.mtd,
                 machTick |-> r.machTick, mtype |-> r.mtype, mi |-> r.mi,
-                txn |-> ntxs + 1]
+                pf |-> r.pf, txn |-> ntxs + 1]
          v == UNION {
                 IF created \in {0, 1} THEN {} ELSE {<<l, "OneRecordPerMatch", "count", "not-0-or-1">>},
                 IF must /\ created < 1 THEN {<<l, "OneRecordPerMatch", "missing", "TransitionEnd">>} ELSE {},
@@ -100,7 +115,7 @@ EvTx ==
                                !.must = @ + (IF must THEN 1 ELSE 0),
                                !.mustnot = @ + (IF mustnot THEN 1 ELSE 0),
                                !.either = @ + (IF ~must /\ ~mustnot THEN 1 ELSE 0)]
-     /\ UNCHANGED <<cid, backend, cfg, open, olog, quiet, ref>>
+     /\ UNCHANGED <<cid, backend, cfg, open, olog, quiet, ref, proc>>
 
 (* OneRecordPerMatch, second half (stored records are the created ones, in     *)
 (* execution order, times = machine time after the transition) and Bounded     *)
@@ -109,6 +124,9 @@ EvLog ==
   /\ LET x == Line
          raw == x.raw
          ids == [i \in 1..Len(raw) |-> raw[i].id]
+         \* a rotation ran to completion since the last scan, and neither scan
+         \* saw one in flight: it started after proc.next was read
+         rotated == Persist /\ x.quiet /\ x.settled /\ proc.settled /\ x.savedGc # proc.gc
          known(i) == raw[i].id >= 1 /\ raw[i].id <= Len(made)
          ext == [i \in 1..Len(raw) |->
                    [id |-> raw[i].id, sum |-> raw[i].sum, tsum |-> raw[i].tsum,
@@ -125,10 +143,12 @@ EvLog ==
                 IF InOrder(ids) THEN {} ELSE {<<l, "OneRecordPerMatch", "order", "store">>},
                 IF backend = "memory" /\ ~BoundedExact(cfg.max, Len(made), ids)
                   THEN {<<l, "Bounded", "memory-exact", "rotation">>} ELSE {},
-                IF Persist /\ x.quiet /\ ~BoundedLoose(cfg.max, cfg.batch, ids)
+                IF Persist /\ x.quiet /\ ~BoundedLooseR(cfg.max, cfg.batch, ids, proc.opened, x.savedGc > 0)
                   THEN {<<l, "Bounded", "exceeds", "checkGc">>} ELSE {},
                 IF Persist /\ x.quiet /\ x.synced /\ ~KeepsNewest(cfg.max, Len(made), ids)
-                  THEN {<<l, "Bounded", "drops-retained", "checkGc">>} ELSE {}}
+                  THEN {<<l, "Bounded", "drops-retained", "checkGc">>} ELSE {},
+                IF rotated /\ ~RotationTrims(cfg.max, cfg.batch, proc.next, ids)
+                  THEN {<<l, "Bounded", "rotation-leaves-older", "checkGc">>} ELSE {}}
          d == UNION {
                 IF \A i \in 1..Len(raw) : known(i) => SameDerived(raw[i], made[raw[i].id]) THEN {}
                   ELSE {<<l, "log.derived">>},
@@ -144,7 +164,15 @@ EvLog ==
      /\ quiet' = x.quiet
      /\ viol' = viol \cup v
      /\ drift' = drift \cup d
-     /\ stats' = [stats EXCEPT !.logs = @ + 1]
+     /\ proc' = [proc EXCEPT !.next = x.nextId, !.gc = x.savedGc, !.settled = x.quiet /\ x.settled]
+     /\ stats' = [stats EXCEPT !.logs = @ + 1,
+                               !.rotations = @ + (IF rotated THEN 1 ELSE 0),
+                               !.rotationsReopened = @ + (IF rotated /\ proc.n > 1 THEN 1 ELSE 0),
+                               \* the per-process reading was needed (see BoundedLooseR)
+                               !.grownByRestarts = @ + (IF Persist /\ x.quiet
+                                   /\ ~BoundedLoose(cfg.max, cfg.batch, ids) 
+                                   /\ BoundedLooseR(cfg.max, cfg.batch, ids, proc.opened, x.savedGc > 0)
+                                 THEN 1 ELSE 0)]
      /\ UNCHANGED <<cid, backend, cfg, open, made, ntxs, hist, ref>>
 
 QOf(x) ==
@@ -232,9 +260,12 @@ EvQ ==
      /\ ref' = IF first THEN [ref EXCEPT !.qs = Append(@, ans), !.hist = hist] ELSE ref
      \* a scan that did not see the writes finish is no log to judge against
      /\ viol' = IF quiet THEN viol \cup v \cup ag ELSE viol
-     /\ drift' = drift \cup d \cup (IF first \/ same THEN {} ELSE {<<l, "q.history-differs">>})
+     \* (a reference block that ended before its queries - a restart that did
+     \* not resume - left nothing to compare with)
+     /\ drift' = drift \cup d \cup (IF first \/ same \/ x.qi > Len(ref.qs) THEN {}
+                                    ELSE {<<l, "q.history-differs">>})
      /\ stats' = [stats EXCEPT !.q = @ + 1]
-     /\ UNCHANGED <<cid, backend, cfg, open, made, olog, quiet, ntxs, hist>>
+     /\ UNCHANGED <<cid, backend, cfg, open, made, olog, quiet, ntxs, hist, proc>>
 
 (* Queries that OVERLAP transitions (in-process slice): a query answers from  *)
 (* ONE log - the log as it was at some moment between its call and its      *)
@@ -262,14 +293,14 @@ EvOverlap ==
      /\ viol' = viol \cup v
      /\ drift' = drift \cup (IF cand = {} THEN {<<l, "qo.window">>} ELSE {})
      /\ stats' = [stats EXCEPT !.overlaps = @ + 1]
-  /\ UNCHANGED <<cid, backend, cfg, open, made, olog, quiet, ntxs, hist, ref>>
+  /\ UNCHANGED <<cid, backend, cfg, open, made, olog, quiet, ntxs, hist, ref, proc>>
 
 EvImport ==
   /\ Line.ev = "import"
   /\ LET x == Line IN
      /\ viol' = viol \cup (IF ImportRestores(x) THEN {} ELSE {<<l, "ImportRestores", "import", "Machine.Import">>})
      /\ stats' = [stats EXCEPT !.imports = @ + 1]
-  /\ UNCHANGED <<cid, backend, cfg, open, made, olog, quiet, ntxs, hist, ref, drift>>
+  /\ UNCHANGED <<cid, backend, cfg, open, made, olog, quiet, ntxs, hist, ref, proc, drift>>
 
 SameRec(a, b) ==
   /\ a.id = b.id /\ a.sum = b.sum /\ a.tsum = b.tsum /\ a.mt = b.mt /\ a.mtd = b.mtd
@@ -293,22 +324,63 @@ EvCrash ==
      /\ viol' = viol \cup v
      /\ drift' = drift \cup d
      /\ stats' = [stats EXCEPT !.crashes = @ + 1]
+  /\ UNCHANGED <<cid, backend, cfg, open, made, olog, quiet, ntxs, hist, ref, proc>>
+
+(* The process stops after Sync (its writes were seen to finish) and a NEW     *)
+(* process - new machine, new memory, same configuration - opens the SAME      *)
+(* store and goes on with the workload.  `made` keeps on growing: the ids, the *)
+(* retention formulas (Bounded / KeepsNewest / RotationTrims) and              *)
+(* OneRecordPerMatch of EvTx / EvLog speak about the store, not the process.   *)
+(*   Durable            every stored record is found again, unchanged          *)
+(*   Durable (by name)  ... and means the same: the new memory reads the       *)
+(*                      tracked times of an old record for the same STATES     *)
+(*                      (a record is a bare slice in the memory's tracked      *)
+(*                      order)                                                 *)
+(*   NextId continuity  the new memory resumes the id sequence                 *)
+NamedSame(a, ta, tb) ==
+  /\ Len(ta) = Len(tb) /\ Len(a.mt) = Len(ta)
+  /\ \A k \in 1..Len(ta) : SIndex(tb, ta[k]) # 0 /\ a.mt[k] = a.mt[SIndex(tb, ta[k])]
+
+EvRestart ==
+  /\ Line.ev = "restart"
+  /\ LET x == Line
+         kept == \A i \in 1..Len(x.live) : \E j \in 1..Len(x.reopened) : SameRec(x.live[i], x.reopened[j])
+         extra == \E j \in 1..Len(x.reopened) : \A i \in 1..Len(x.live) : x.live[i].id # x.reopened[j].id
+         named == \A j \in 1..Len(x.reopened) : NamedSame(x.reopened[j], x.tracked0, x.tracked1)
+         v == IF x.err # "" THEN {<<l, "Durable", "reopen-error", "reopen">>}
+              ELSE UNION {
+                IF kept THEN {} ELSE {<<l, "Durable", "lost", "reopen">>},
+                IF named THEN {} ELSE {<<l, "Durable", "tracked-order-changed", "NewMemory">>},
+                IF x.reNextId = x.nextId THEN {}
+                  ELSE {<<l, "Durable", "NextId-not-resumed", "GetMachine">>}}
+         d == UNION {
+                IF x.err = "" /\ extra THEN {<<l, "restart.extra-records">>} ELSE {},
+                IF x.err = "" /\ x.nextId # Len(made) + 1 THEN {<<l, "restart.nextId">>} ELSE {},
+                IF x.err = "" /\ backend = "bbolt" /\ KvNoResume /\ x.reNextId # 1
+                  THEN {<<l, "restart.resume">>} ELSE {}}
+     IN
+     /\ open
+     /\ proc' = [start |-> Len(made), opened |-> Len(x.reopened), next |-> x.reNextId, gc |-> 0,
+                 settled |-> TRUE, n |-> proc.n + 1]
+     /\ viol' = viol \cup v
+     /\ drift' = drift \cup d
+     /\ stats' = [stats EXCEPT !.restarts = @ + 1]
   /\ UNCHANGED <<cid, backend, cfg, open, made, olog, quiet, ntxs, hist, ref>>
 
 EvEnd ==
   /\ Line.ev = "end"
   /\ open' = FALSE
-  /\ UNCHANGED <<cid, backend, cfg, made, olog, quiet, ntxs, hist, ref, viol, drift, stats>>
+  /\ UNCHANGED <<cid, backend, cfg, made, olog, quiet, ntxs, hist, ref, proc, viol, drift, stats>>
 
 Done ==
   /\ l = Len(Trace) + 1
   /\ PrintT(<<"RESULT", ToJson([lines |-> Len(Trace), stats |-> stats,
                                 viol |-> viol, drift |-> drift])>>)
-  /\ UNCHANGED <<cid, backend, cfg, open, made, olog, quiet, ntxs, hist, ref, viol, drift, stats>>
+  /\ UNCHANGED <<cid, backend, cfg, open, made, olog, quiet, ntxs, hist, ref, proc, viol, drift, stats>>
 
 TraceNext ==
   \/ /\ l <= Len(Trace)
-     /\ (EvCase \/ EvTx \/ EvLog \/ EvQ \/ EvOverlap \/ EvImport \/ EvCrash \/ EvEnd)
+     /\ (EvCase \/ EvTx \/ EvLog \/ EvQ \/ EvOverlap \/ EvImport \/ EvCrash \/ EvRestart \/ EvEnd)
      /\ l' = l + 1
   \/ (Done /\ l' = l + 1)
 
